@@ -639,3 +639,75 @@ theorem loopR_full (R : PH → Option S) (cmd : S)
     exact hnb c (List.all_eq_true.1 (hval q hq r hr) c hc)
 
 end SciVerif.Fmt
+
+/-! ### C13: decoding undoes encoding on paths without underscores -/
+namespace SciVerif.Str
+
+theorem stripPrefix?_head_ne (p : Char) (ps : S) (c : Char) (cs : S) (h : p ≠ c) :
+    stripPrefix? (p :: ps) (c :: cs) = none := by
+  simp [stripPrefix?, h]
+
+theorem replaceAllF_nil (pat rep : S) (n : Nat) : replaceAllF pat rep n [] = [] := by
+  cases n <;> rfl
+
+/-- `replacePlaceholdersWithParentDirs ∘ replaceParentDirsWithPlaceholder = id` on strings without '_',
+for any sufficient fuels -/
+theorem decode_encode_F (n : Nat) : ∀ (s : S) (m : Nat), '_' ∉ s → s.length ≤ n →
+    (replaceAllF parentTok parentPH n s).length ≤ m →
+    replaceAllF parentPH parentTok m (replaceAllF parentTok parentPH n s) = s := by
+  induction n with
+  | zero =>
+    intro s m _ hn _
+    have : s = [] := List.eq_nil_of_length_eq_zero (by omega)
+    subst this
+    simp [replaceAllF, replaceAllF_nil]
+  | succ n ih =>
+    intro s m hs hn hm
+    cases s with
+    | nil => simp [replaceAllF, replaceAllF_nil]
+    | cons c cs =>
+      have hc : c ≠ '_' := fun h => hs (by simp [h])
+      have hcs : '_' ∉ cs := fun h => hs (List.mem_cons_of_mem _ h)
+      simp only [replaceAllF] at hm ⊢
+      cases hsp : stripPrefix? parentTok (c :: cs) with
+      | some rest =>
+        simp only [hsp] at hm ⊢
+        have hs' := stripPrefix?_eq_append hsp
+        have hlen := stripPrefix?_length hsp
+        have hrest : '_' ∉ rest := by
+          intro h; apply hs; rw [hs']; exact List.mem_append_right _ h
+        cases m with
+        | zero => simp [parentPH] at hm
+        | succ m =>
+          have hstep : replaceAllF parentPH parentTok (m + 1) (parentPH ++ replaceAllF parentTok parentPH n rest) =
+              parentTok ++ replaceAllF parentPH parentTok m (replaceAllF parentTok parentPH n rest) := by
+            have : parentPH ++ replaceAllF parentTok parentPH n rest =
+                '_' :: (['_', 'p', 'a', 'r', 'e', 'n', 't', '_', '_'] ++ replaceAllF parentTok parentPH n rest) := rfl
+            rw [this]
+            simp only [replaceAllF]
+            have h2 : stripPrefix? parentPH ('_' :: (['_', 'p', 'a', 'r', 'e', 'n', 't', '_', '_'] ++ replaceAllF parentTok parentPH n rest)) =
+                some (replaceAllF parentTok parentPH n rest) := stripPrefix?_append_self parentPH _
+            rw [h2]
+          have hl3 : parentTok.length = 3 := rfl
+          have hl10 : parentPH.length = 10 := rfl
+          have hr1 : rest.length ≤ n := by simp only [List.length_cons] at hlen hn; omega
+          have hr2 : (replaceAllF parentTok parentPH n rest).length ≤ m := by
+            simp only [List.length_append] at hm; omega
+          rw [hstep, ih rest m hrest hr1 hr2, hs']
+      | none =>
+        simp only [hsp] at hm ⊢
+        cases m with
+        | zero => simp at hm
+        | succ m =>
+          simp only [replaceAllF]
+          have : stripPrefix? parentPH (c :: replaceAllF parentTok parentPH n cs) = none :=
+            stripPrefix?_head_ne '_' _ c _ (fun h => hc h.symm)
+          rw [this]
+          simp only
+          rw [ih cs m hcs (by simpa using hn) (by simpa using hm)]
+
+theorem decodeParent_encodeParent (s : S) (hs : '_' ∉ s) : decodeParent (encodeParent s) = s := by
+  unfold decodeParent encodeParent replaceAll
+  exact decode_encode_F s.length s _ hs (Nat.le_refl _) (Nat.le_refl _)
+
+end SciVerif.Str
